@@ -65,10 +65,18 @@ def new_helpers(prog, vocab):
     missing = {}
     missing_sigs = {}
     sigs = load_sigs()
+    try:
+        import json as _json, os as _os
+        with open(_os.path.join(_os.path.dirname(_os.path.abspath(__file__)), "returns.json")) as fh_:
+            rets = _json.load(fh_)
+    except Exception:
+        rets = {}
     for v in vocab:
         if v not in present:
             missing[v.rsplit("::", 1)[0]] = missing.get(v.rsplit("::", 1)[0], 0) + 1
-            missing_sigs.setdefault(v.rsplit("::", 1)[0], []).append([_canon_generic(x) for x in sigs[v]] if v in sigs else None)
+            # (parameter types, then - when pinned - the return type as a last element)
+            missing_sigs.setdefault(v.rsplit("::", 1)[0], []).append(
+                ([_canon_generic(x) for x in sigs[v]] + (["-> " + _canon_generic(rets[v])] if v in rets else [])) if v in sigs else None)
     # a function that *moved* to another module keeps its name (and the name of its impl type) and its signature while the
     # pinned path has vanished: it is the same function at a new address, not a new helper
     def _tailkey(path_):
@@ -80,7 +88,18 @@ def new_helpers(prog, vocab):
     for v in vocab:
         if v not in present and not v.startswith("<") and v in sigs:
             moved_pool.setdefault(_tailkey(v), []).append((v, [_canon_generic(x) for x in sigs[v]]))
-    for b in prog.bodies:
+    # when several new functions could take the place of one vanished function (same signature), the one that is called from
+    # outside its own impl / module is the renamed one - a helper that only its siblings call is a helper
+    def _rank(b_):
+        sp2_ = strip_generics(b_.path)
+        if sp2_ in vocab:
+            return 0
+        pre2_ = sp2_.rsplit("::", 1)[0]
+        for (cb_, _, _, _) in prog.callers_of(lambda n, p_=b_.path: n == p_ or strip_generics(n) == strip_generics(p_)):
+            if strip_generics(cb_.path).rsplit("::", 1)[0] != pre2_ and (cb_.raw.get("root") or "").rsplit("::", 1)[0] != pre2_:
+                return 0
+        return 1
+    for b in sorted(prog.bodies, key=_rank):
         if b.kind not in ("fn", "assoc_fn"):
             continue
         sp_ = strip_generics(b.path)
@@ -92,8 +111,10 @@ def new_helpers(prog, vocab):
                 pre_old = hit_[0].rsplit("::", 1)[0]
                 if missing.get(pre_old, 0) > 0:
                     missing[pre_old] -= 1
-                    if hit_[1] in missing_sigs.get(pre_old, []):
-                        missing_sigs[pre_old].remove(hit_[1])
+                    for m2_ in list(missing_sigs.get(pre_old, [])):
+                        if m2_ is not None and [x_ for x_ in m2_ if not x_.startswith("-> ")] == hit_[1]:
+                            missing_sigs[pre_old].remove(m2_)
+                            break
                 MOVED[sp_] = hit_[0]
                 continue
         if strip_generics(b.path) in vocab:
@@ -114,10 +135,12 @@ def new_helpers(prog, vocab):
             # signatures are known); a new function with another signature is a helper even if functions vanished
             cs_ = [_canon_generic(b.local_ty(i)) for i in range(1, b.arg_count + 1)]
             ms_ = missing_sigs.get(pre, [])
-            if any(m_ is None for m_ in ms_) or cs_ in ms_:
+            csr_ = cs_ + ["-> " + _canon_generic(b.local_ty(0))]
+            hit_ = next((m_ for m_ in ms_ if m_ is not None and (m_ == csr_ or (m_ == cs_ and not (m_ and m_[-1].startswith("-> "))))), None)
+            if any(m_ is None for m_ in ms_) or hit_ is not None:
                 missing[pre] -= 1
-                if cs_ in ms_:
-                    ms_.remove(cs_)
+                if hit_ is not None:
+                    ms_.remove(hit_)
                 elif None in ms_:
                     ms_.remove(None)
                 continue
@@ -1907,6 +1930,19 @@ def _top_args(ty):
     return out
 
 
+def _carries_failure_enum(ty, depth=0):
+    """`Result<T, E>` / `ControlFlow<Result<Infallible, E>, T>` whose E is a fieldless-or-not crate enum (a private failure kind)"""
+    if depth > 2:
+        return False
+    if ty.startswith("core::result::Result<"):
+        a = _top_args(ty)
+        return len(a) == 2 and re.sub(r"<.*$", "", a[1]) in _CRATE_ENUMS
+    if ty.startswith(("core::ops::control_flow::ControlFlow<", "core::ops::ControlFlow<")):
+        a = _top_args(ty)
+        return bool(a) and _carries_failure_enum(a[0], depth + 1)
+    return False
+
+
 def _same_err_type(res_ty, dest_ty):
     a, b = _top_args(res_ty), _top_args(dest_ty)
     return len(a) == 2 and len(b) == 2 and a[1] == b[1] and res_ty.startswith("core::result::Result<") and dest_ty.startswith("core::result::Result<")
@@ -2022,8 +2058,26 @@ def thread_variants(raw):
                         and re.sub(r"<.*$", "", raw["locals"][src["l"]]["ty"].lstrip("&").strip()) in _CRATE_ENUMS:
                     relevant.add(st["place"]["l"])
                     changed = True
-            # `opt.ok_or(Failure::X)` into a tracked result: which failure
+            # backwards: what a tracked value is a whole-value copy / payload of, and what a tracked `?` / `ok_or` result was
+            # computed from (the facts on the source only matter because they reach a tracked value)
+            for st in blk["stmts"]:
+                if st["k"] == "assign" and not st["place"]["p"] and st["place"]["l"] in relevant and "use" in st.get("rv", {}):
+                    sp_ = mir.op_place(st["rv"]["use"])
+                    # (only carriers of a crate enum - `Result<T, Failure>`: an `Option<Entity>` driving a loop is left alone)
+                    if sp_ is not None and sp_["l"] not in relevant and _threadable(sp_["l"]) and (not sp_["p"] or _payload_proj(sp_) is not None) \
+                            and _carries_failure_enum(raw["locals"][sp_["l"]]["ty"]):
+                        relevant.add(sp_["l"])
+                        changed = True
             t = blk["term"]
+            if t["k"] == "call" and not t["dest"]["p"] and t["dest"]["l"] in relevant and t["args"]:
+                fr_ = op_fn(t["func"])
+                if fr_ and (mir.tail2(fr_["path"]) in TRANSFER or mir.tail2(fr_["path"]) == "FromResidual::from_residual"):
+                    ap_ = mir.op_place(t["args"][0])
+                    if ap_ is not None and not ap_["p"] and ap_["l"] not in relevant and _threadable(ap_["l"]) \
+                            and _carries_failure_enum(raw["locals"][ap_["l"]]["ty"]):
+                        relevant.add(ap_["l"])
+                        changed = True
+            # `opt.ok_or(Failure::X)` into a tracked result: which failure
             if t["k"] == "call" and not t["dest"]["p"] and t["dest"]["l"] in relevant and len(t["args"]) > 1:
                 fr_ = op_fn(t["func"])
                 if fr_ and TRANSFER.get(mir.tail2(fr_["path"])) == "to_result":
